@@ -115,6 +115,11 @@ fn run_case(seed: u64, idx: u64, all_rates: bool) -> CaseOut {
     let mut last_admitted_update: Vec<Option<u64>> = vec![None; n_bars];
     let mut updates_since_start: Vec<u64> = vec![0; n_bars];
     let mut max_stale = 0u64;
+    // MultiProgress worlds: the row every member must show in the next painted frame, whoever asks for that frame -
+    // known after a request that always renders the member (tick, set_message, force_draw), unknown (None) after a
+    // position update that the per-bar bucket may have swallowed (round 11)
+    let mut rendered: Vec<Option<String>> = vec![None; n_bars];
+    let mut member_rows_checked = 0u64;
     let mut nested = 0u64;
     let mut episodes = 0u64;
     let mut finish_resets = 0u64;
@@ -214,6 +219,7 @@ fn run_case(seed: u64, idx: u64, all_rates: bool) -> CaseOut {
             }
             skipped += k + 1 - total.min(k + 1);
             nested += 1;
+            rendered.iter_mut().for_each(|r| *r = None);
             continue 'ops;
         }
         let req = match if metronome { 7 } else if storm { 20 } else { rng.below(21) } {
@@ -290,6 +296,24 @@ fn run_case(seed: u64, idx: u64, all_rates: bool) -> CaseOut {
             if !rows.iter().any(|r| r.trim_end() == want.trim_end()) {
                 verdict = viol("stale-frame", feats(""), format!("frame painted by {req:?} on B{b} does not show the latest state {want:?}: {rows:?}"), witness(String::new()), replay.clone());
                 break 'ops;
+            }
+        }
+        if multi {
+            match req {
+                Req::Tick | Req::Msg | Req::Force => rendered[b] = Some(format!("B{b} {}/1000 {}", model[b].0, model[b].1.split('\n').next().unwrap_or(""))),
+                Req::Println => {}
+                _ => rendered[b] = None,
+            }
+            if flushed == 1 {
+                let rows = spy.state().screen.all_rows();
+                for (x, r) in rendered.iter().enumerate() {
+                    let Some(r) = r else { continue };
+                    member_rows_checked += 1;
+                    if !rows.iter().any(|q| q.trim_end() == r.trim_end()) {
+                        verdict = viol("stale-member-in-frame", feats(""), format!("frame painted by {req:?} on B{b}: member B{x} was rendered as {r:?} by its last request (declined by the limiter, so not painted then) but the frame does not show that: {rows:?}"), witness(String::new()), replay.clone());
+                        break 'ops;
+                    }
+                }
             }
         }
         if forced && flushed == 0 {
@@ -407,6 +431,7 @@ fn run_case(seed: u64, idx: u64, all_rates: bool) -> CaseOut {
     co.count("skipped_requests", skipped);
     co.count("nested_update_requests_with_stale_stamp", nested);
     co.count("steady_tick_on_off_episodes", episodes);
+    co.count("member_rows_checked_in_frames_of_other_requests", member_rows_checked);
     co.count("resets_of_a_finished_bar", finish_resets);
     co.max("staleness_ns", max_stale);
     co.max("window_excess_milliframes_over_RT", if max_excess > 0 { (max_excess / 1_000_000) as u64 } else { 0 });
